@@ -1233,7 +1233,9 @@ def oracle(ctx: Ctx) -> OracleResult:
                                          {'kind': 'cert-validate', 'blob': blob.hex(), 'want': 1, 'principal': 'alice',
                                           'now': str(now), 'expect_ok': want_ok}))
             for want, pc, want_ok in ((1, 'alice', True), (0, 'bob', True), (2, 'alice', False), (1, 'carol', False),
-                                      (1, None, True), (1, '', False), (1, 'ALICE', False), (1, 'alice ', False)):
+                                      (1, None, True), (1, '', False), (1, 'ALICE', False), (1, 'alice ', False),
+                                      # "any type" waives the type test only, never the principal test
+                                      (0, 'carol', False), (0, '', False), (0, 'alice ', False), (0, None, True)):
                 res.evaluations += 1
                 r = impl_validate(c, want, pc, 1500)
                 if (r == 'ok') != want_ok:
